@@ -4,7 +4,13 @@ VPSC_RULE = ("each evaluation is one simulated world generated from a seed: 1-3 
              "sharing one seeded heap, each a history of add-constraint / move-desired / satisfy / solve / static one-shot / permuted-twin ops, "
              "scheduled at op granularity; non-trivial = at least one reach probe fired; distinct = distinct event-log hash (FNV over every op, "
              "scheduler decision, result value and flag)")
+OVERLAP_RULE = ("each evaluation is one simulated world: 1-3 sessions (removeoverlaps / generateX,YConstraints histories on rectangle sets in six styles: "
+                "random, grid-aligned ties, identical, fractional, thin, nested; with fixed subsets and optional third pass; solver sessions as noise) sharing one seeded heap whose "
+                "placement policy decides the scan-line tie-breaks; border globals checked at every yield; non-trivial = a reach probe fired; distinct = distinct event-log hash")
 PROPS = {
+    "C09": dict(build="plain", runs_quick=40000, budget_quick=35, runs_thorough=2000000, budget_thorough=900, rule=OVERLAP_RULE,
+                assumptions=["fixed rectangles that overlap one another are dropped from the fixed set (unsatisfiable request)",
+                             "constraint-set clause checked for generateYConstraints and generateXConstraints(useNeighbourLists=false) by projecting a random placement with the QP oracle"]),
     "C01": dict(build="plain", runs_quick=60000, budget_quick=35, runs_thorough=3000000, budget_thorough=900, rule=VPSC_RULE,
                 assumptions=["oracle tolerance 1e-6 on scaled constraints as in the statement",
                              "flag-iff-infeasible clause only armed for inequality-only, scale-1 systems (as the statement restricts it)",
